@@ -5,6 +5,7 @@ import Bmc.Proofs.GenDec.AES128CBC
 import Bmc.Proofs.GenDec.Message
 import Bmc.Proofs.EndToEnd.SessionC04
 import Bmc.Proofs.EndToEnd.HistoryC11
+import Bmc.Proofs.EndToEnd.WholeC04
 #print axioms Bmc.Proofs.C04.accept_sound
 #print axioms Bmc.Proofs.C04.unauthenticated_or_foreign_is_retry
 #print axioms Bmc.Proofs.C04.accepted_satisfies_mac
@@ -22,3 +23,5 @@ import Bmc.Proofs.EndToEnd.HistoryC11
 #print axioms Bmc.Proofs.EndToEnd.generated_loop_accepts_only_authentic
 #print axioms Bmc.Proofs.EndToEnd.sendCommand_result_justified
 #print axioms Bmc.Proofs.EndToEnd.generated_history_results
+#print axioms Bmc.Proofs.EndToEnd.generated_session_then_history_results
+#print axioms Bmc.Proofs.EndToEnd.integ_ne_zero_of_negotiated
